@@ -6,7 +6,7 @@ ASSUMPTIONS = ['md5 output has 16 bytes']
 RULE = ('every ciphertext length 0..253 x secret lengths {1,2,15,16,17,63,64,65,255} incl. binary secrets, with/without salt; '
         'distinct = distinct implementation observation lines')
 SECLENS = [1, 2, 15, 16, 17, 63, 64, 65, 255]
-def generate(rng, tier):
+def generate_core(rng, tier):
     ops = []
     reps = 6 if tier == 'thorough' else 1
     for _ in range(reps):
@@ -24,3 +24,8 @@ def generate(rng, tier):
                 ops.append('op recrypt mppe %s %s %s %s %s' % (hx(v), hx(os_), hx(ns), hx(oa), hx(na)))
     rng.shuffle(ops)
     return batch(ops, 'rc', 50)
+
+def generate(rng, tier):
+    """the component-level cases, then the clause seen through the whole request/reply pipeline"""
+    import pipeline, focus
+    return generate_core(rng, tier) + pipeline.guided_cases(rng, 400 if tier == 'thorough' else 30, pipeline.exchange_history, 'xchg')
